@@ -143,6 +143,9 @@ def MAX_CELL_COLLAPSE : Nat := 100
 def collapseEdgeGeometry (g : Grid) (geomNode1 geomEdge1 : Bool) (n0 n1 : Nat) : Status × Bool :=
   if geomNode1 then (.ok, false) else
   if geomEdge1 then (.ok, hasSide e2nEdg g.edg n0 n1) else
+  -- RXS(ref_cell_id_list_around(ref_edg, node1, 2, &degree1, ids1), REF_INCREASE_LIMIT, ...); if (degree1 > 1)
+  -- (fix 285dd96: a node where two or more edg ids meet separates boundary patches and is never removed)
+  if (idListAround g.edg n1 2).2.length > 1 then (.ok, false) else
   -- RXS(ref_cell_id_list_around(ref_tri, node1, 3, &degree1, ids1), REF_INCREASE_LIMIT, ...)
   let ids1 := (idListAround g.tri n1 3).2
   match ids1 with
@@ -413,6 +416,9 @@ def smoothEdgeFrozen (g : Grid) (geomEdge : Bool) (xyz : List (V3 α)) (node : N
   if !nodeEmpty g.qua node then (.ok, true) else
   if !nodeEmpty g.pyr node || !nodeEmpty g.pri node || !nodeEmpty g.hex node then (.ok, true) else
   if geomEdge then (.ok, true) else
+  -- RXS(ref_cell_id_list_around(edg, node, 2, &n_ids, ids), REF_INCREASE_LIMIT, ..); if (n_ids > 1) return
+  -- (fix 36d5222: a node that separates two edg ids is not moved)
+  if (idListAround g.edg node 2).2.length > 1 then (.ok, true) else
   match smoothEdgeNeighbors g node with
   | (.ok, some a, some b) =>
     match smoothNodeSameTangent xyz node a b with
